@@ -166,11 +166,11 @@ ApplyFn(f, args, env, d) ==
                     THEN [EmptyFrame EXCEPT ![f.name] = f] ELSE EmptyFrame
            chain == env \o <<self, f.scope, BindArgs(f.ps, args)>> IN
        Eval(f.b, chain, d + 1).v
-  ELSE CASE f.name = "map"    -> IF ~IsList(args[1]) THEN ErrC("type") ELSE MapCb(args[2], args[1].xs, 1, env, d + 2, [m |-> "map", acc |-> <<>>])
-         [] f.name = "filter" -> IF ~IsList(args[1]) THEN ErrC("type") ELSE MapCb(args[2], args[1].xs, 1, env, d + 2, [m |-> "filter", acc |-> <<>>])
-         [] f.name = "every"  -> IF ~IsList(args[1]) THEN ErrC("type") ELSE MapCb(args[2], args[1].xs, 1, env, d + 2, [m |-> "every"])
-         [] f.name = "some"   -> IF ~IsList(args[1]) THEN ErrC("type") ELSE MapCb(args[2], args[1].xs, 1, env, d + 2, [m |-> "some"])
-         [] f.name = "reduce" -> IF ~IsList(args[1]) THEN ErrC("type") ELSE FoldCb(args[2], args[1].xs, 1, args[3], env, d + 2)
+  ELSE CASE f.name = "map"    -> IF ~IsList(args[1]) THEN ErrC("type") ELSE IF ~(IsFn(args[2]) \/ IsBi(args[2])) THEN ErrC("notfn") ELSE MapCb(args[2], args[1].xs, 1, env, d + 2, [m |-> "map", acc |-> <<>>])
+         [] f.name = "filter" -> IF ~IsList(args[1]) THEN ErrC("type") ELSE IF ~(IsFn(args[2]) \/ IsBi(args[2])) THEN ErrC("notfn") ELSE MapCb(args[2], args[1].xs, 1, env, d + 2, [m |-> "filter", acc |-> <<>>])
+         [] f.name = "every"  -> IF ~IsList(args[1]) THEN ErrC("type") ELSE IF ~(IsFn(args[2]) \/ IsBi(args[2])) THEN ErrC("notfn") ELSE MapCb(args[2], args[1].xs, 1, env, d + 2, [m |-> "every"])
+         [] f.name = "some"   -> IF ~IsList(args[1]) THEN ErrC("type") ELSE IF ~(IsFn(args[2]) \/ IsBi(args[2])) THEN ErrC("notfn") ELSE MapCb(args[2], args[1].xs, 1, env, d + 2, [m |-> "some"])
+         [] f.name = "reduce" -> IF ~IsList(args[1]) THEN ErrC("type") ELSE IF ~(IsFn(args[2]) \/ IsBi(args[2])) THEN ErrC("notfn") ELSE FoldCb(args[2], args[1].xs, 1, args[3], env, d + 2)
          [] f.name = "sort_by" ->
               IF ~IsList(args[1]) THEN ErrC("type")
               ELSE LET ks == [i \in 1..Len(args[1].xs) |-> ApplyFn(args[2], <<args[1].xs[i]>>, env, d + 2)] IN
